@@ -50,6 +50,9 @@ SUBS = [
     ("LQQLback", "{M} l4,7 q2,3 5,1 q-3,2 -5,-1 l-4,-7 z"),
     # closing edges that are short but not zero (5e-4 and 1e-7 user units)
     ("nearclose", "{M} l4,7 l3,-2 l-7,-4.9995 z"), ("nearclose7", "{M} q4,7 3,-2 l-3,2.0000001 z"),
+    # single segments that end exactly where they start (one-segment loops: "nothing to swap" is wrong for them)
+    ("Cloop", "{M} c20,10 -10,20 0,0"), ("LCloopL", "{M} l2,1 c20,10 -10,20 0,0 l3,3"), ("Cloopz", "{M} l1,0 c20,10 -10,20 0,0 z"),
+    ("QloopL", "{M} l1,1 q5,-5 0,0 l2,0"),
 ]
 NOMOVE_OK = ["L", "LL", "LLz", "Q", "C", "A", "AL", "QTz", "z-only", "Lz"]      # usable right after a close without own move
 STARTS = ["M3,-2", "M10,1", "m-6,4"]
